@@ -309,5 +309,47 @@ PROPS["C16"] = {"gen": lambda tier: c16_simple(tier) + c16_mg(tier) + c16_wg(tie
     "assumptions": ["pre-state satisfies RI_dup: every pair at most DUP times per list, undirected half-lists carry equal counts, one label entry per connected pair"]}
 
 
+KIND_NAMES = {0: "dir", 1: "und", 2: "dmg", 3: "umg", 4: "dwg", 5: "uwg"}
+EQ_Q = {0: "eq", 1: "ne", 2: "sym", 3: "refl", 4: "copyctor", 5: "copyassign"}
+
+
+def eq_ob(kind, lt, ng, nh, q, **kw):
+    nm = max(ng, nh, 1)
+    defs = caps(max(ng, nh), nm)
+    defs.update({"KIND": kind, "LT": lt, "NG": ng, "NH": nh, "Q": q})
+    if lt == 4:
+        defs["VERIF_STR_CAP"] = 3
+    ob = {"id": "C06/%s%s/n%d-%d/%s" % (KIND_NAMES[kind], ("-" + LT_NAMES[lt]) if kind < 2 else "", ng, nh, EQ_Q[q]), "src": "eq.cpp", "defs": defs, "bounds": graph_bounds(defs)}
+    ob.update(kw)
+    return ob
+
+
+def c06(tier):
+    obs = []
+    configs = [(0, 0), (0, 1), (1, 0), (1, 1), (2, 1), (3, 1), (4, 1), (5, 1)]
+    if tier == "thorough":
+        configs += [(0, 4), (0, 5), (1, 3), (1, 4), (1, 5), (0, 3)]
+    for kind, lt in configs:
+        for q in (0, 1, 2, 3, 4, 5):
+            if tier == "quick" and q in (1, 2, 5) and not (kind in (0, 1) and lt == 1):
+                continue
+            obs.append(eq_ob(kind, lt, 3, 3, q, optional_reach=["same graph"] if q >= 4 else []))
+        for ng, nh in ((2, 3), (2, 2), (1, 1), (0, 0), (0, 1), (3, 2)):
+            if tier == "quick" and (ng, nh) in ((1, 1), (0, 1), (3, 2)) and not (kind in (0, 1) and lt == 1):
+                continue
+            obs.append(eq_ob(kind, lt, ng, nh, 0, optional_reach=[""]))
+        if tier == "thorough" and lt in (0, 1):
+            obs.append(eq_ob(kind, lt, 4, 4, 0, timeout=3000, mem_gb=12))
+    return obs
+
+
+PROPS["C06"] = {"gen": c06,
+    "bounds": {"quick": "two independent arbitrary valid states of the same class, vertex counts (3,3), (2,3), (2,2), (0,0) [plus (1,1),(0,1),(3,2) for the int-labelled classes]; all eight classes; labels from a 4-value domain per type; every neighbour order",
+               "thorough": "also (4,4) for NoLabel/int, and double, std::string, struct labels"},
+    "outside": "graphs above the vertex bound; duplicate (forced) edges; labels beyond the 4-value domains (operator== only uses label equality)",
+    "explanation": "g == h is compared with equality of the abstractions (vertex count, edge set, labels) of two independently chosen valid representations - different list orders and different histories are different symbolic choices. History independence follows because every reachable state satisfies the representation invariant (C01-C05). One operator call per query.",
+    "assumptions": ["both states satisfy the class's representation invariant (no orphan label entries) - established inductively by C01-C05"]}
+
+
 def obligations(prop, tier):
     return PROPS[prop]["gen"](tier)
